@@ -2,7 +2,7 @@
 
 ENGINES = [
     dict(name='symx', path='/verif/symx',
-         serves_properties=['C01', 'C02', 'C03', 'C06', 'C07'],
+         serves_properties=['C01', 'C02', 'C03', 'C04', 'C05', 'C06', 'C07'],
          kind_free_text='symbolic execution of the real emsarray functions on numpy/xarray object arrays of z3-backed '
                         'scalars; fork-by-re-execution path explorer; every path closed by z3 verdict queries and a '
                         'concrete replay of a model on the unmodified stack'),
@@ -66,6 +66,28 @@ CHECKS = {
         note='GEOS validity is sandwiched between strictly-convex (valid) and bow-tie/collinear/zero-area (invalid); other cells '
              'are pruned. For rectangles validity is exact and linear. Two genuine defects are listed in known_findings.json '
              '(CFGrid1D.geometry with non-contiguous stored bounds; fast-path bounds include dropped invalid cells).',
+    ),
+    'C04': dict(
+        engine='symx',
+        technique='symbolic execution of the real point-lookup code with a symbolic query point; z3 (linear real arithmetic) partitions the plane via half-plane tests and enumerates hit orders',
+        text='The query point is an arbitrary point of the plane and the spatial index may report hits in any order. On every '
+             'feasible region (interiors, shared edges and vertices, holes, outside) z3 shows the result is None iff no cell with '
+             'geometry contains/touches the point, otherwise the lowest-indexed such cell with consistent linear index, native '
+             'index and polygon; select_point raises exactly on a miss.',
+        design_ref='DESIGN.md section 4, C04',
+        note='STRtree.query is a contract over the concrete convex cell polygons (closed half-plane tests, arbitrary report '
+             'order); GEOS itself and non-convex cells are outside; every path witness is replayed with the real STRtree.',
+    ),
+    'C05': dict(
+        engine='symx',
+        technique='symbolic execution of the real selection / point-extraction code on object arrays of z3 reals; requested indexes and lookup outcomes are z3 Ints enumerated by forking',
+        text='All stored values symbolic (NaN included). For every index list up to length 3 on every grid kind and every '
+             'hit/miss outcome vector of up to 3 points under each policy, z3 shows each output entry is the stored term of '
+             'the requested cell, in request order, other dimensions intact, other-grid and geometry variables absent, and the '
+             'error/drop/fill contracts on positions.',
+        design_ref='DESIGN.md section 4, C05',
+        note='Request vectors are enumerated via the solver (values stay symbolic). The spatial lookup is a contract (miss or '
+             'one cell per request; boundary hits are C04). Each path is replayed with real points on float arrays.',
     ),
 }
 
